@@ -218,6 +218,31 @@ def gen_verify_case(r, n_mut=None):
             c.meta['time_scale'] = 1000
             c.meta['mutations'] = muts + ['subsecond-change:' + p]
             ops = [['verify', '', r.choice([0, 1, 1]), [lm]]] + ops[:1]
+    if r.random() < 0.06:
+        # a sibling (directory or file) whose name merely string-extends the name of the verified directory and whose entry does not match:
+        # it lies outside the verified directory
+        ds = [d for d in c.meta['dirs'] if d and t.lookup(d) is not None and t.nodes[t.lookup(d)]['k'] == 'd' and not any(x.startswith('.') for x in d.split('/'))]
+        top = t.lookup('Manifest')
+        if ds and top is not None and t.nodes[top]['k'] == 'f':
+            X = r.choice(ds)
+            Y = X + r.choice(['2', '-config', '.txt', 'x', '.d'])
+            if t.lookup(Y) is None:
+                tn = t.nodes[top]
+                asdir = r.random() < 0.5
+                if asdir:
+                    t.add_dir(Y)
+                    c.meta['dirs'].append(Y)
+                    fp = Y + '/inner'
+                else:
+                    fp = Y
+                state = r.choice(['altered', 'missing', 'fine'])
+                if state != 'missing':
+                    t.add_file(fp, b'sibling data\n')
+                line = ET.entry_line('DATA', fp, b'sibling data\n' if state != 'altered' else b'other content!\n', r.sample(GT.GOOD_HASHES, r.randint(0, 2)))
+                tn['data'] = tn['data'] + (b'' if tn['data'].endswith(b'\n') or not tn['data'] else b'\n') + line.encode('utf8') + b'\n'
+                tn['size'] = len(tn['data'])
+                c.meta['mutations'] = list(c.meta['mutations']) + ['prefix-sibling-%s:%s' % (state, fp)]
+                ops = [['verify', X, r.choice([0, 1, 2]), []]] + ops[:1]
     c.ops = ops
     return c
 
@@ -1115,6 +1140,26 @@ def gen_update_case(r, profile='default', rounds=None):
                 t.add_file(Y + '/newfile', b'new file in the sibling\n')
                 c.meta['dirs'].append(Y)
                 muts.append('prefix-sibling:' + Y)
+    force_compress = None
+    if prior != 'absent' and r.random() < 0.05:
+        # the name a sub-Manifest would get by (de)compression is taken by a file that is not a Manifest; a new file makes the Manifest change
+        subs = sorted(m for m in written if os.path.dirname(m) and t.lookup(m) is not None and not any(x.startswith('.') for x in m.split('/')))
+        if subs:
+            m = r.choice(subs)
+            d = os.path.dirname(m)
+            sfx = ET.suffix_of(os.path.basename(m))
+            if sfx is None:
+                fmt2 = r.choice(['gz', 'bz2'])
+                other, force_compress = m + '.' + fmt2, (0, fmt2)
+            else:
+                other, force_compress = m[:-len(sfx) - 1], (100000, sfx)
+            if t.lookup(other) is None:
+                t.add_file(other, r.choice([b'\x00\x01garbage', b'free text, not a Manifest\n<<<<<<<\n']))
+                if t.lookup(d + '/newfile') is None:
+                    t.add_file(d + '/newfile', b'makes the Manifest change\n')
+                muts.append('name-taken:' + other)
+            else:
+                force_compress = None
     if prior != 'absent' and r.random() < 0.06:
         # a valid Manifest file that the top-level Manifest lists as plain data (DATA / MISC), not as MANIFEST
         cand = sorted({os.path.dirname(p) for p in files if os.path.dirname(p) and not any(x.startswith('.') for x in p.split('/'))
@@ -1144,6 +1189,8 @@ def gen_update_case(r, profile='default', rounds=None):
     sort = r.random() < 0.5
     wm = r.choice([None, None, 0, 60, 200, 100000])
     fmt = r.choice([None, None, 'gz', 'bz2', 'xz', 'lzma'])
+    if force_compress:
+        wm, fmt = force_compress
     if t.link_paths():
         # a Manifest reachable under two names (finding D20): recompression through one of them is not compared
         wm = None
